@@ -71,7 +71,7 @@ var tiers = map[string]tierCfg{
 	"C20": {QuickRuns: 1600, ThoroughRuns: 80000, Workers: 16},
 	"C13": {QuickRuns: 3200, ThoroughRuns: 160000, Workers: 16},
 	"C14": {QuickRuns: 1600, ThoroughRuns: 60000, Workers: 8},
-	"C18": {QuickRuns: 32000, ThoroughRuns: 1600000, Workers: 16},
+	"C18": {QuickRuns: 32000, ThoroughRuns: 1600000, Workers: 16, Race: true, RaceQuick: 64, RaceThorough: 4000},
 	"C19": {QuickRuns: 48000, ThoroughRuns: 1600000, Workers: 16},
 	"C10": {QuickRuns: 3200, ThoroughRuns: 200000, Workers: 16, Enum: true, EnumQuickStride: 7},
 	"C11": {QuickRuns: 3200, ThoroughRuns: 200000, Workers: 16, Enum: true, EnumQuickStride: 7},
